@@ -638,3 +638,25 @@ def install_sites(fn, fname):
                 v = fn.arg_terms(t, 1, bi) if len(t['args']) > 1 else None
                 out.append({'block': bi, 'idx': fn.nstmts(bi), 'kind': kind, 'value': v, 'raw': v})
     return out
+
+
+def zip_components(elem_terms):
+    """elem_terms = the element of a loop over A.iter..().zip(B.iter..()): returns (A base terms, B base terms) with the
+    iterator adaptors (iter, iter_mut, into_iter, enumerate is NOT stripped) removed, or None"""
+    src = iter_source(elem_terms)
+    if src is None or len(src) != 1:
+        return None
+    z = next(iter(src))
+    if not (z[0] == 'call' and z[1] == 'std::iter::Iterator::zip' and len(z[2]) == 2):
+        return None
+
+    def base(ts):
+        for _ in range(4):
+            if len(ts) == 1:
+                n = next(iter(ts))
+                if n[0] == 'call' and n[2] and n[1].rsplit('::', 1)[-1] in ('iter', 'iter_mut', 'into_iter', 'deref', 'deref_mut', 'as_slice', 'as_mut_slice'):
+                    ts = n[2][0]
+                    continue
+            break
+        return ts
+    return base(z[2][0]), base(z[2][1])
